@@ -270,6 +270,9 @@ var stateOps = []msg{
 	{"t+depr", false, 1, []updS{{"<depr a>", "int1"}}, nil},
 	{"t", false, 1, []updS{{"<depr a>", "int1"}}, nil}, // deprecated path below a target-only prefix
 	{"t+origin", false, 1, []updS{{"a", "decimal"}}, nil},
+	// an atomic notification WITHOUT updates under a prefix that has an element
+	// (on the unchanged tree: counted as empty, nothing stored)
+	{"t+a", true, 2, nil, nil},
 }
 
 func states(maxLen int) [][]int {
@@ -827,7 +830,7 @@ func (harness) Specs(tier string) []seqmc.Spec {
 		}
 	}
 	return []seqmc.Spec{
-		specIngest("ingest, full grammar", [][]int{{}, {0}, {1}, {3}, {6}, {10}}, grammar(true)),
+		specIngest("ingest, full grammar", [][]int{{}, {0}, {1}, {3}, {6}, {10}, {12}, {4, 12}}, grammar(true)),
 		specIngest("ingest, single-part grammar", states(2), grammar(false)),
 		specMetaRegistry(),
 		specDisplay(2),
